@@ -163,6 +163,25 @@ def grammar_tables(work):
     lines.append(f"#define N_WAS {len(want['assign'])}")
     lines.append("static const int WA_PRESENT[N_WAS] = {" + ", ".join("1" if assign_tokens.get(w["token"]) == w["kind"] else "0" for w in want["assign"]) + "};")
     lines.append("static const int WA_TOK[N_WAS] = {" + ", ".join(str(tid[w["token"]]) for w in want["assign"]) + "};")
+    # the scanner's spelling -> token map: lexer.l rules `"spelling" { return TOKEN; }` and the keyword table of keywords.cpp
+    lx = X.Source("src/lexer.l")
+    scan = {}
+    for sm in re.finditer(r'^"((?:[^"\\\n]|\\.)+)"\s*\{\s*return\s+(T_\w+|\'(?:[^\'\\]|\\.)\')\s*;\s*\}', lx.text, re.M):
+        sp = re.sub(r"\\(.)", r"\1", sm.group(1))
+        scan.setdefault(sp, sm.group(2))
+    kw = X.Source("src/keywords.cpp")
+    for km in re.finditer(r'\{"(\w+)",\s*Keyword\{(T_\w+),', kw.text):
+        scan.setdefault(km.group(1), km.group(2))
+    if len(scan) < 60 or "<=" not in scan or "and" not in scan:
+        raise X.ExtractionBroken("lexer.l / keywords.cpp: cannot read the spelling -> token rules")
+    tokname = lambda tkn: "'&'" if tkn == "'&'" else tkn
+
+    def spell_ok(w):
+        sps = [s.strip() for s in w["spelling"].split(" and ")] if " and " in w["spelling"] and w["spelling"] not in scan else [w["spelling"]]
+        return all(scan.get(s) == tokname(w["token"]) for s in sps)
+    lines.append("static const int WS_OK[N_WANT] = {" + ", ".join("1" if spell_ok(w) else "0" for w in wb) + "}; /* scanner maps the operator's spelling to its token */")
+    lines.append("static const int WUS_OK[N_WUN] = {" + ", ".join("1" if spell_ok(w) else "0" for w in want["unary"]) + "};")
+    lines.append("static const int WAS_OK[N_WAS] = {" + ", ".join("1" if spell_ok(w) else "0" for w in want["assign"]) + "};")
     for name in ("unary_level_token", "assign_level_token", "inline_if_token"):
         lines.append(f"#define TOK_{name.upper()} {tid[want[name]]}")
     write(work, "grammar_tables.h", "\n".join(lines) + "\n")
